@@ -36,7 +36,8 @@ Record Inv (s : state) : Prop := {
   i_failed : ph s = PFailed ->
       cprog s = None /\ connected s = false /\ socket_open s = false /\ not_alive (worker s) = true;
   i_cb : callbacks_after_close s = 0%N;
-  i_sel : (sel_after_close s <= 1)%N /\
+  i_sel : is_ssh (tr s) = false ->
+          (sel_after_close s <= 1)%N /\
           (sel_after_close s = 1%N -> closed_locally s = true /\ post_top (worker s) = true);
   i_req : (past_broadcast (worker s) = true -> pending s = []) /\
           (forall r, In r (accepted_early s) -> In r (pending s) \/ In r (answered s) \/ In r (failed s));
@@ -163,6 +164,7 @@ Proof. unfold effects; intros s t; destruct t; (split; [|split; [|split]]); intr
 Ltac boolh :=
   repeat match goal with
   | H : _ && _ = true |- _ => apply andb_true_iff in H; destruct H
+  | H : _ || _ = true |- _ => apply orb_true_iff in H; destruct H
   | H : negb _ = true |- _ => apply negb_true_iff in H
   | H : negb _ = false |- _ => apply negb_false_iff in H
   | H : eqb _ _ = true |- _ => apply eqb_prop in H
@@ -179,7 +181,7 @@ Ltac selsplit :=
       destruct (N.eq_dec (sel_after_close s) 1) as [?E|?E]; [specialize (H E) | clear H]
   end.
 Ltac fin4 :=
-  simpl; intros; simpl in *; unfold closed_locally in *; simpl in *; boolh; intuition idtac; selsplit; boolh;
+  simpl; intros; simpl in *; unfold closed_locally in *; simpl in *; boolh; subst; intuition idtac; selsplit; boolh; subst;
   simpl in *; rwb; simpl in *;
   try congruence; try lia; intuition (try congruence; try lia); indisp; inlast.
 Ltac go5 := crunch; splitifs; (constructor; [ first [ solve [cprog_same] | solve [cprog_none] ] | fin4 .. ]).
@@ -242,7 +244,7 @@ Proof.
       constructor; simpl;
       [ intros r0 Hr; inversion Hr; subst; rewrite F1, F2; split; [exact Hp|]; split;
           [eapply suffix_cons; exact Hs| apply EC; exact He]
-      | rewrite ?F2, ?F3, ?F4, ?F5, ?F6, ?F7, ?F8, ?F9, ?F10, ?F11, ?F12, ?F13;
+      | rewrite ?F1, ?F2, ?F3, ?F4, ?F5, ?F6, ?F7, ?F8, ?F9, ?F10, ?F11, ?F12, ?F13;
         clear EC He Hs F1 F2 F3 F4 F5 F6 F7 F8 F9 F10 F11 F12 F13; mono_fin M1 M2 M3 M4 .. ].
     + crunch; subst.
       match goal with H : cstep_eqb _ _ = true |- _ => apply cstep_eqb_eq in H; subst end.
@@ -250,7 +252,7 @@ Proof.
       destruct F as (F1 & F2 & F3 & F4 & F5 & F6 & F7 & F8 & F9 & F10 & F11 & F12 & F13 & M1 & M2 & M3 & M4 & _).
       constructor;
       [ eapply (cprog_keep s); [eassumption | simpl; try assumption; try congruence ..]; rwb; simpl; congruence
-      | simpl; rewrite ?F2, ?F3, ?F4, ?F5, ?F6, ?F7, ?F8, ?F9, ?F10, ?F11, ?F12, ?F13;
+      | simpl; rewrite ?F1, ?F2, ?F3, ?F4, ?F5, ?F6, ?F7, ?F8, ?F9, ?F10, ?F11, ?F12, ?F13;
         clear F1 F2 F3 F4 F5 F6 F7 F8 F9 F10 F11 F12 F13; mono_fin M1 M2 M3 M4 .. ].
   - (* CloseRet *) destruct a.
     + crunch; subst; spec_cprog.
